@@ -12,10 +12,10 @@ const (
 	kBlockParent = "(*hs.Block).Parent("
 	kBlockHash   = "(*hs.Block).Hash("
 	kBlockQC     = "(*hs.Block).QuorumCert("
-	kQCView      = "hs.QuorumCert.View("
-	kQCHash      = "hs.QuorumCert.BlockHash("
-	kTCView      = "hs.TimeoutCert.View("
-	kAggView     = "hs.AggregateQC.View("
+	kQCView      = "(hs.QuorumCert).View("
+	kQCHash      = "(hs.QuorumCert).BlockHash("
+	kTCView      = "(hs.TimeoutCert).View("
+	kAggView     = "(hs.AggregateQC).View("
 	kPropBlock   = "->hs.ProposeMsg.Block"
 	kPropID      = "->hs.ProposeMsg.ID"
 	kLastVoted   = "hs/protocol/consensus.Voter.lastVotedView"
